@@ -266,7 +266,9 @@ func WithClientIPResolver(resolver ClientIPResolver) Option {
 // packages that use route annotation.
 func WithAnnotation(key, value any) RouteOption {
 	return routeOptionFunc(func(s sealedOption) error {
-		if !reflect.TypeOf(key).Comparable() {
+		// A nil key has no type, and a comparable type (interface, array or struct of interfaces) may still hold a
+		// dynamic value that cannot be used as a map key: check the value, not only its type.
+		if key == nil || !reflect.ValueOf(key).Comparable() {
 			return fmt.Errorf("%w: annotation key is not comparable", ErrInvalidConfig)
 		}
 		if s.route.annots == nil {
